@@ -38,6 +38,9 @@ MEMSZ = 1 << 20
 TEXT, DATA, NDATA = 0x200, 0x2000, 48          # data window: 48 words at 0x2000 (first 32 initialised)
 PTR_SLOTS = range(40, 48)                        # window words that always hold valid pointers
 BASE, PTRS, CNTS = 28, (26, 27), (29, 30)
+LOW, NLOW = 0x80, 32                           # second, LOW data window (zero at start): reached through address sums that wrap past 2^32
+def win_addr(k): return DATA + 4 * k if k < NDATA else LOW + 4 * (k - NDATA)
+def in_win(a): return DATA <= a < DATA + 4 * NDATA or LOW <= a < LOW + 4 * NLOW
 AHI, WBASE = 23, (24, 25)                      # x23 = DATA + 2048 (second anchor); x24/x25 = bases computed as target - displacement
 
 # =============================================================================================== (a) checksum
@@ -282,7 +285,9 @@ def gensim(ins, data, inputs, rng=None, limit=20000):
     elif op == 'addi': wr = (i[1], (R[i[2]] + i[3]) & M32)
     elif op in ('lw', 'sw'):
       a = (R[i[2]] + i[3]) & M32
-      if a % 4 or not (DATA <= a < DATA + 4 * NDATA): raise GenSimError(f'{op} address {a:#x} outside the data window')
+      if a % 4 or not in_win(a): raise GenSimError(f'{op} address {a:#x} outside the data windows')
+      if R[i[2]] + i[3] > M32: F(f'{op}-address-wraps-2^32')
+      if a < DATA: F(f'{op}-low-window')
       F(f'{op}-disp-' + ('ge1024' if i[3] >= 1024 else 'lt-1024' if i[3] < -1024 else 'small'))
       if i[3] % 4: F(f'{op}-unaligned-base')
       if op == 'lw': wr = (i[1], mem.get(a, 0)); isld = True
@@ -310,7 +315,7 @@ def gensim(ins, data, inputs, rng=None, limit=20000):
     hist.append((wr[0] if wr and wr[0] != 0 else None, isld, op in ('csrr', 'csrw', 'xr', 'xw'), op == 'xr', op if op in ('xr', 'xw') else None))
     F('op-' + op)
     pc = npc
-  return {'out': out, 'win': [mem.get(DATA + 4 * k, 0) for k in range(NDATA)], 'dyn': dyn, 'inputs': inputs[:nin], 'unused_inputs': len(inputs) - nin,
+  return {'out': out, 'win': [mem.get(win_addr(k), 0) for k in range(NDATA + NLOW)], 'dyn': dyn, 'inputs': inputs[:nin], 'unused_inputs': len(inputs) - nin,
           'feats': feats, 'end': end}
 
 # ---- random program generator
@@ -402,6 +407,23 @@ def gen_tree(rng, size, far=None):
       recent.append(seq[-1][1][1])
       if rng.random() < 0.5: seq.append(('i', ('csrw', seq[-1][1][1])))
     return seq
+  def lowmem(store=None, shadow=False):
+    """an access to the LOW window: base built from x0 by addi; mostly base = target - disp NEGATIVE, i.e. a large unsigned
+       base (0xfffff801..0xffffffff) plus a positive displacement whose 32-bit sum wraps past 2^32 onto the low address"""
+    if store is None: store = rng.random() < 0.55
+    target = LOW + 4 * rng.randrange(NLOW)
+    k = rng.random()
+    while True:
+      d = field_value(rng, 12)
+      if k < 0.75 and target < d <= 2047: break          # wraps: base = 2^32 - (d - target)
+      if k >= 0.75 and -2048 <= target - d <= 2047 and d <= target: break
+    b = rng.choice(WBASE)
+    seq = [('i', ('addi', b, 0, target - d))]
+    for _ in range(rng.choice([0, 0, 0, 1, 2])): seq.append(simple(shadow))
+    seq.append(('i', ('sw', src(), b, d)) if store else ('i', ('lw', dst(), b, d)))
+    if not store and seq[-1][1][1] in pool: recent.append(seq[-1][1][1])
+    if not store and rng.random() < 0.5: seq.append(('i', ('csrw', seq[-1][1][1])))
+    return seq
   def memref(store):
     """(base reg, imm) of a legal aligned address; stores avoid the pointer slots"""
     if rng.random() < 0.5:
@@ -445,7 +467,8 @@ def gen_tree(rng, size, far=None):
     body = []
     for _ in range(rng.randint(1, 4)):
       k2 = rng.random()
-      if k2 < 0.2: body += wide(shadow=True)
+      if k2 < 0.06: body += lowmem(shadow=True)
+      elif k2 < 0.2: body += wide(shadow=True)
       elif k2 < 0.3: body += xcel(shadow=True)
       else: body.append(simple(shadow=True))
     return pre + [('if', a, b, body)]
@@ -468,6 +491,7 @@ def gen_tree(rng, size, far=None):
           seq.append(('i', ('csrr', dst())) if rng.random() < 0.5 else ('i', ('csrw', src())))
           if seq[-1][1][0] == 'csrr' and seq[-1][1][1] in pool: recent.append(seq[-1][1][1])
         out += seq; n -= len(seq)
+      elif k < 0.35: out += lowmem(); n -= 2                                # low window, address sum wraps past 2^32
       elif k < 0.42: out += wide(); n -= 2                                  # full-range displacement load/store
       elif k < 0.50: out += xcel(); n -= 3                                  # accelerator write / read / dependent instruction
       elif k < 0.56:                                                          # pointer chasing: a loaded value is the next address
@@ -561,12 +585,12 @@ def simulate(pname, prog, cfg, drain=40):
       obs['cycles'] = cyc
       after = bytes(th.mem.read_mem(0, MEMSZ - 1))
       obs['left'] = len(th.src.msgs)
-      obs['win'] = [w[0] for w in struct.iter_unpack('<I', after[DATA:DATA + 4 * NDATA])]
+      obs['win'] = [w[0] for w in struct.iter_unpack('<I', after[DATA:DATA + 4 * NDATA] + after[LOW:LOW + 4 * NLOW])]
       if before != after:
         for a in range(0, MEMSZ, 4096):
           if before[a:a + 4096] != after[a:a + 4096]:
             for b in range(a, a + 4096, 4):
-              if before[b:b + 4] != after[b:b + 4] and not (DATA <= b < DATA + 4 * NDATA):
+              if before[b:b + 4] != after[b:b + 4] and not in_win(b):
                 obs['extra'].append((b, struct.unpack('<I', after[b:b + 4])[0]))
   except Exception as e:
     obs['exception'] = f'{type(e).__name__}: {e}'[:300]
@@ -592,13 +616,13 @@ Definition final (c : pcase) : state :=
   let '(ins, words, data, inputs, fuel, endpc, obs) := c in run (N fuel) (init_state [(512, words); (8192, data)] inputs).
 Definition obs_ok (s : state) (o : obs_t) : bool :=
   let '(out, win, extra, nleft) := o in
-  list_eqb (outputs s) out && list_eqb (load_words (mem s) 8192 48) win
+  list_eqb (outputs s) out && list_eqb (load_words (mem s) 8192 48 ++ load_words (mem s) 128 32) win
   && forallb (fun av => load4 (mem s) (fst av) =? snd av) extra && (Z.of_nat (length (mngr2proc s)) =? nleft).
 Definition model_ok_s (c : pcase) (s : state) : bool :=
   let '(ins, words, data, inputs, fuel, endpc, obs) := c in
   forallb wf_instrb ins && list_eqb (map encode ins) words
   && halted s && (pc s =? endpc) && (endpc =? 512 + 4 * Z.of_nat (length words))
-  && mem_within (mem s) [(512, endpc); (8192, 8192 + 192)] && list_eqb (load_words (mem s) 512 (length words)) words.
+  && mem_within (mem s) [(512, endpc); (8192, 8192 + 192); (128, 256)] && list_eqb (load_words (mem s) 512 (length words)) words.
 Definition model_ok (c : pcase) : bool := model_ok_s c (final c).
 Definition case_ok (c : pcase) : bool :=
   let '(ins, words, data, inputs, fuel, endpc, obs) := c in
@@ -622,7 +646,7 @@ def coq_reference(ctx, prog, words):
   """what the Coq ISA interpreter computes for this program (for the report)"""
   t = case_term(prog, words, [])
   v = ctx.coq_eval('ref', IMPORTS, DEFS, [f"let c := {t} in let s := final c in let '(ins, words, _, _, _, _, _) := c in "
-                                          "(model_ok c, pc s, outputs s, load_words (mem s) 8192 48, Z.of_nat (length (mngr2proc s)), "
+                                          "(model_ok c, pc s, outputs s, load_words (mem s) 8192 48 ++ load_words (mem s) 128 32, Z.of_nat (length (mngr2proc s)), "
                                           "bad_indices (fun p => encode (fst p) =? snd p) (combine ins words))"])
   return v[0]
 
@@ -712,7 +736,7 @@ def describe(o, prog):
     bits.append(f'proc2mngr message #{k}: got {hex(o["out"][k]) if k < len(o["out"]) else "nothing"}, ISA gives {hex(r["out"][k]) if k < len(r["out"]) else "nothing (extra message)"}')
   if o['win'] != r['win']:
     k = next(j for j, (a, b) in enumerate(zip(o['win'], r['win'])) if a != b)
-    bits.append(f'memory word at {DATA + 4 * k:#x}: got {o["win"][k]:#x}, ISA gives {r["win"][k]:#x}')
+    bits.append(f'memory word at {win_addr(k):#x}: got {o["win"][k]:#x}, ISA gives {r["win"][k]:#x}')
   if o['extra']: bits.append(f'memory changed outside the data window: {[(hex(a), hex(v)) for a, v in o["extra"][:4]]}')
   if o['left'] not in (0,): bits.append(f'{o["left"]} mngr2proc messages left unconsumed')
   return '; '.join(bits) or 'agrees with the generator-side interpreter (only the Coq model disagrees)'
@@ -886,6 +910,7 @@ def main(ctx):
     'accelerator registers (csr 0x7E0-0x7FF): the ISA document makes them transactions with an accelerator whose semantics it leaves open; the Coq model is instantiated with '
     'the NullXcelRTL the ex03 TestHarness attaches (one register: any write stores, any read returns it; modelled from NullXcel.py, not from the ISA document), '
     'so for these instructions "agree with the ISA" means FL = CL = RTL = ISA-with-NullXcel; programs write the accelerator before the first read',
+    'two data windows are observed in full: 48 words at 0x2000 and 32 words at 0x80 (zero at start; reached through base+displacement sums that wrap past 2^32 as well as directly); every other changed word of the 1MB memory is reported too',
     'self-modifying code and the MUL instruction (not in this ISA document) are outside the generated programs',
     'timing configurations use the TestHarness parameters as they are (src_delay and sink_delay are both the initial and the interval delay; stall seeds are fixed by MagicMemoryCL)',
     'checksum CL/RTL units are simulated through TestSrcCL/TestSinkCL with 2 (quick) or 4 (thorough) delay settings; the FL/RTL/spec equality itself is a theorem for all inputs']
